@@ -61,6 +61,15 @@ def evaluate(args):
         T = 700.0
         tmpl = bs.make_region(dassh, n_ring, dims, 1, flow=-1.0, ff=ff, fs=fs,
                               mix=mix, grid=GRIDS[gname])
+        # a negative request -m.mmm means m.mmm x the laminar-transition
+        # bound, -(100 + m.mmm) means m.mmm x the transition-turbulent bound
+        # of the flow-split family (CTD bounds for the other splits)
+        if re_target < 0:
+            famb = fuctd if fs == 'UCTD' else fctd
+            rbb = famb.calculate_Re_bounds(tmpl)
+            o['bnd'] = 'L' if re_target > -100 else 'T'
+            re_target = (rbb[0] * -re_target if re_target > -100
+                         else rbb[1] * (-re_target - 100))
         # flow rate for the requested Reynolds number
         mu = tmpl.coolant.viscosity
         flow = re_target * mu * tmpl.bundle_params['area'] \
@@ -157,6 +166,19 @@ def cases_for(rng, tier):
                         out.append((n, dims, re_t, ff, fs, mix, g,
                                     f'N{n};ff:{ff},fs:{fs},mix:{mix};'
                                     f'Re~{int(re_t)};grid={g}', reg))
+    # the regime boundaries themselves (just below, on, just above)
+    for n in rings:
+        dims = bs.random_dims(rng, n, 1)
+        combos = [('CTD', 'CTD', 'CTD'), ('UCTD', 'UCTD', 'UCTD'),
+                  ('NOV', 'MIT', 'MIT')]
+        mults = [0.999, 1.0, 1.002] if tier == 'quick' else \
+            [0.99, 0.999, 1.0, 1.0005, 1.002, 1.005, 1.01, 1.03]
+        for ff, fs, mix in combos:
+            for m in mults:
+                for code, nm in ((-m, 'L'), (-(100 + m), 'T')):
+                    out.append((n, dims, code, ff, fs, mix, 'none',
+                                f'N{n};ff:{ff},fs:{fs},mix:{mix};'
+                                f'Re={m}x{nm}-bound;grid=none', 'boundary'))
     return out
 
 
@@ -189,6 +211,8 @@ def run(tier, res, replay=None):
                                  info.strip('{}').split(',') if c.strip())
                 for cl in clauses:
                     low = 'relt17=1;' if o.get('Re', 1000) < 17 else ''
+                    if o.get('bnd'):
+                        low += f'bnd={o["bnd"]};'
                     key = (f'{low}combo=ff:{o["ff"]},fs:{o["fs"]},mix:{o["mix"]};'
                            f'regime={o["regime"]};grid={o["grid"]};'
                            f'exc={o["outcome"]};clause={cl}')
